@@ -25,12 +25,19 @@ pub struct Ctx {
     /// shrink inner loops under slow interpreters
     pub variant: String,
     pub fp_out: Option<String>,
+    /// file that always holds the index of the case being run (crash attribution)
+    pub progress: Option<String>,
     pub verbose: bool,
 }
 
 impl Ctx {
     pub fn slow(&self) -> bool {
         self.variant == "miri" || self.variant == "valgrind"
+    }
+    pub fn note_case(&self, case: u64) {
+        if let Some(p) = &self.progress {
+            let _ = std::fs::write(p, case.to_string());
+        }
     }
     pub fn case_seed(&self, case: u64) -> u64 {
         pgvcore::rng::mix(&[self.seed, pgvcore::util::fnv1a(self.prop.as_bytes()), self.shard, self.nshards, case])
